@@ -25,8 +25,9 @@ ASSUMPTIONS = ["no power-loss model: crash images are in-order copies of db + ro
 EXHAUSTIVE = False
 
 MODULES = ["m", "M", "m_x", "mXx", "pkg.mod"]
-QUALS = ["my_func", "myXfunc", "MY_FUNC", "my_func2", "Foo.bar", "foo", "Foo", "a%b", "a_b", "aXb", "a%", "a"]
-PREFIXES = [None, None, "", "my_func", "my_", "my", "MY", "Foo", "Foo.", "foo", "F", "a%", "a_", "a", "%", "_", "myXfunc", "my_func2", "a%b"]
+# (identifiers may contain characters outside the Basic Multilingual Plane: U+20BB7 sorts after U+FFFF in UTF-8 byte order)
+QUALS = ["my_func", "myXfunc", "MY_FUNC", "my_func2", "Foo.bar", "foo", "Foo", "a%b", "a_b", "aXb", "a%", "a", "Foo.\U00020bb7x", "\U00020bb7y", "Foo.\uffffz"]
+PREFIXES = [None, None, "", "my_func", "my_", "my", "MY", "Foo", "Foo.", "foo", "F", "a%", "a_", "a", "%", "_", "myXfunc", "my_func2", "a%b", "Foo.\U00020bb7", "Foo.\uffff"]
 
 
 def n_runs(tier):
@@ -78,7 +79,7 @@ def gen(rng, index, tier):
                 "kinds": ["abort", "kill", "image", "read", "write"], "only": None}
     kn = {
         "actors": rng.choice([1, 2, 2, 3, 4, 8, 16]),
-        "batch_sizes": rng.choice([[1, 2, 3], [1, 5, 20], [0, 1, 2, 60], [200, 400]]),
+        "batch_sizes": rng.choice([[1, 2, 3], [1, 5, 20], [0, 1, 2, 60], [200, 400], [1, 499, 501, 1100]]),
         "bad_p": rng.choice([0.0, 0.0, 0.1, 0.3]),
         "faults": rng.random() < 0.7,
         "vm_step": rng.choice([1, 5, 20, 100, 1000]),
